@@ -137,6 +137,8 @@ class C09(Spec):
         big = ['newton', 'lnbgs'] if quick else ['newton', 'lnbgs', 'nlbgs', 'broyden']
         top_big = 3 if quick else 4
         top_small = 2 if quick else 3
+        if quick:
+            big = ['newton', 'lnbgs']
         wcache = {}
 
         def W(cap, fs):
@@ -146,10 +148,10 @@ class C09(Spec):
 
         for cls in NL + LIN:
             top = top_big if cls in big else top_small
-            stalls = STALLS if cls in NL else [(0, False, 1e-12)]
+            stalls = (STALLS if (cls in big or not quick) else STALLS[:5]) if cls in NL else [(0, False, 1e-12)]
             for maxiter in range(0, top + 1):
                 for (atol, rtol) in (TOLS[:1] if quick and maxiter >= 3 else TOLS):
-                    for st in stalls:
+                    for st in (stalls[::2] if quick and maxiter >= 3 else stalls):
                         for err in (False, True):
                             for w in W(maxiter + 1, True):
                                 cases.append(mk(cls, maxiter, atol, rtol, st, err, False,
@@ -165,7 +167,7 @@ class C09(Spec):
                             cases.append(mk(cls, maxiter, atol, rtol, st, err, True, concretize(w, atol, rtol) + [1000.0],
                                             '%s:cs:maxiter=%d' % (cls, maxiter)))
         # random binary64 histories
-        for _ in range(4000 if quick else 100000):
+        for _ in range(3000 if quick else 100000):
             cls = rng.choice(NL + LIN)
             maxiter = rng.choice([-1, 0, 1, 1, 2, 2, 3, 4, 5, 6, 8])
             atol = rng.choice([0.0, 1e-10, 1e-6, 1.0, 10.0 ** rng.uniform(-12, 1)])
